@@ -1,5 +1,6 @@
 From AB Require Import Desc Generated GeneratedWf.
-From AB Require Import Tree TreeDefs TreeProofs TreeProofs2 TreeProofs3 TreeProofs4 TreeRun TreeFacts.
+From AB Require Import Tree TreeDefs TreeProofs TreeProofs2 TreeProofs3 TreeProofs4 TreeWF TreeWFProofs TreeRun TreeFacts.
+From AB Require Import Construct ConstructProofs ConstructWF.
 From Coq Require Import ZArith List Bool.
 Import ListNotations.
 
@@ -56,3 +57,48 @@ Example C05_hyps :
   /\ option_map k_id (border all_classes 64 SFirst ex_open_num) = Some 1%Z
   /\ option_map k_id (border all_classes 64 SLast ex_open_num) = Some 23%Z.
 Proof. vm_compute. auto 10. Qed.
+
+(* ---- the C05 statement itself: TreeWF.WF (store membership, spans from first to last token, children
+   nested in order without visible overlap, leaves = the significant tokens, no token twice) ------- *)
+(* the checker the harness evaluates on every dumped implementation state (TreeRun.TWf) is sound *)
+Theorem C05_wf_b_sound : forall cs n, wf_b cs n = true -> WF cs n.
+Proof. exact wf_b_sound. Qed.
+Theorem C05_whole_store_b_sound : forall n store, whole_store_b n store = true -> whole_store n store.
+Proof. exact whole_store_b_sound. Qed.
+(* re-attaching a well-formed tree to another store gives a well-formed tree in that store *)
+Theorem C05_reattach_wf : forall cs new, classes_ok cs ->
+  forall a, conforms cs a = true -> WF cs a -> WF cs (reattach cs new a).
+Proof. exact reattach_WF. Qed.
+(* a copy through a token map that keeps rule/text and does not identify two tokens is well-formed *)
+Theorem C05_clone_wf : forall cs new f, classes_ok cs ->
+  (forall t, k_rule (f t) = k_rule t /\ k_text (f t) = k_text t) ->
+  forall a, conforms cs a = true ->
+  (forall t t', In t (node_toks a) -> In t' (node_toks a) -> k_id (f t) = k_id (f t') -> k_id t = k_id t') ->
+  WF cs a -> WF cs (clone cs new f a).
+Proof. exact clone_WF. Qed.
+(* WF => every model reachable from the root lives in the root's store *)
+Theorem C05_wf_sids : forall cs a, WF cs a -> forall s, In s (sids a) -> s = root_sid a.
+Proof. exact WF_sids. Qed.
+(* a self-contained tree prints exactly the text of its store *)
+Theorem C05_whole_store_text : forall n store,
+  whole_store n store -> text_of store = text_of (node_toks n).
+Proof. exact whole_store_text. Qed.
+
+Example C05_wf_hyps :
+  wf_b classes ex_open = true /\ wf_b all_classes ex_open_num = true
+  /\ whole_store_b ex_open_num (node_toks ex_open_num) = true
+  /\ forallb (fun t => forallb (fun t' => negb (k_id (ex_fresh t) =? k_id (ex_fresh t'))%Z || (k_id t =? k_id t')%Z)
+                                (node_toks ex_open_num)) (node_toks ex_open_num) = true
+  /\ wf_b all_classes (clone all_classes 9 ex_fresh ex_open_num) = true
+  /\ wf_b all_classes (reattach all_classes 9 ex_open_num) = true.
+Proof. vm_compute. auto 10. Qed.
+
+(* a tree built by the generic from_children from well-formed free-standing arguments is well-formed
+   (see properties/C15.v for the two run-level hypotheses) *)
+Theorem C05_constructed_wf_partial : forall cs new mid, classes_ok cs -> forall c args data next store n,
+  classes_anchored cs -> find_class cs (c_name c) = Some c -> wf_desc c = true -> NoDup (names c) ->
+  args_all args (arg_good cs) ->
+  construct cs new mid c args data next = Some (store, n) ->
+  NoDup (ids store) -> node_toks n = store ->
+  WF cs n.
+Proof. exact constructed_wf. Qed.
